@@ -36,6 +36,21 @@ def corpus(rng, tier, wd, run):
                 srcs.append(("should_fail", open(os.path.join(d, f), encoding="utf-8").read()))
     for _ in range(100 if tier == "quick" else 1500):
         srcs.append(("invalid", validate.render(validate.random_file(rng), rng)[0]))
+    # files with SEVERAL simultaneous violations (two clashing names, two undefined references, ...): which one is reported
+    # must not depend on the hash seed. They come from the edit-distance-2 universe of MC_Validate.
+    r = common.tlc("MC_Validate", env={"DEPTH": 2, "PRINT": "1"}, workers=8, timeout=6000, xmx="8g")
+    if r.error:
+        raise ToolError("MC_Validate failed:\n" + r.error[:2000])
+    run.add_tlc(r)
+    bad = [c["f"] for c in r.tagged("FILE") if c["bad"]]
+    for f in rng.sample(bad, min(len(bad), 400 if tier == "quick" else 6000)):
+        srcs.append(("edited", validate.render(f, rng)[0]))
+    # grammars with several conflicts in different states: the bracket family of the pipeline engine
+    for _ in range(150 if tier == "quick" else 2000):
+        G = pipeline.bracket_grammar(rng)
+        pres = grammar.present(G, rng)
+        pres["ts"] = list(G["ts"])
+        srcs.append(("bracket", grammar.render(G, pres)))
     return srcs
 
 
